@@ -339,6 +339,37 @@ def sweep(pid, tier, seed):
     return 1
 
 
+def selftest():
+    """Determinism of the second simulator: the same (scenario, Miri seed, rate) executed twice,
+    in separate interpreter processes running side by side, must print the same history, final
+    adjacency and completion order; and different Miri seeds must give different completion
+    orders for at least some scenarios (the schedule really is decided by the seed)."""
+    tmpl = build_template()
+    combos = [(mode, mix(1000 + i) >> 1, s, r) for i, mode in enumerate(["c17", "c19"] * 6) for s, r in [(1, "0.1"), (2, "0.5")]]
+    def run(c):
+        mode, sseed, mseed, rate = c
+        flags = [f"-Zmiri-seed={mseed}", f"-Zmiri-preemption-rate={rate}"]
+        p = subprocess.run(command(tmpl, flags, [mode, str(sseed), "--print"]), shell=True, capture_output=True, text=True, timeout=600)
+        return p.returncode, p.stdout
+    with concurrent.futures.ThreadPoolExecutor(max_workers=16) as ex:
+        first = list(ex.map(run, combos))
+        second = list(ex.map(run, list(reversed(combos))))[::-1]
+    bad = [c for c, a, b in zip(combos, first, second) if a != b]
+    if bad:
+        print(f"FAILED selftest-msim: {len(bad)} of {len(combos)} executions differ between two runs, e.g. {bad[0]}")
+        return 1
+    by_scenario = {}
+    for c, (rc, out) in zip(combos, first):
+        tr = re.search(r"^TRACE (\S*)$", out, re.M)
+        by_scenario.setdefault((c[0], c[1]), set()).add(tr.group(1) if tr else None)
+    varied = sum(1 for v in by_scenario.values() if len(v) > 1)
+    if varied == 0:
+        print("FAILED selftest-msim: no scenario completed its calls in a different order under a different Miri seed")
+        return 1
+    print(f"OK selftest-msim: {len(combos)} executions repeated in a second process each, outputs identical; {varied} of {len(by_scenario)} scenarios completed their calls in a different order under the other seed")
+    return 0
+
+
 def merge_evidence(pid, stage):
     path = os.path.join(ROOT, "evidence", f"{pid}.json")
     try:
@@ -353,6 +384,8 @@ def merge_evidence(pid, stage):
 
 
 if __name__ == "__main__":
+    if len(sys.argv) == 2 and sys.argv[1] == "selftest":
+        sys.exit(selftest())
     if len(sys.argv) == 3 and sys.argv[1] == "replay":
         sys.exit(replay(sys.argv[2]))
     if len(sys.argv) != 4 or sys.argv[1] not in ("C17", "C19") or sys.argv[2] not in ("quick", "thorough"):
